@@ -531,6 +531,87 @@ func errBeforeUse(c *core.Ctx, r *core.Report) {
 	r.Floor("uses of results returned with an error", n, 5)
 }
 
+// restartDelivery implements C18.R6.
+func restartDelivery(c *core.Ctx, r *core.Report) {
+	f := findRunner(c)
+	if f.body == nil {
+		panic(core.AnchorError{What: "the periodic runner's goroutine"})
+	}
+	// the restart channel: the chan struct{} field of Runner received from in the select that is not the join channel
+	var restart *types.Var
+	for _, sel := range an.Selects(f.body) {
+		for _, st := range sel.States {
+			if st.Dir != types.RecvOnly {
+				continue
+			}
+			fld, owner := an.TerminalField(st.Chan)
+			if fld != nil && an.IsNamed(owner, raterunPkg, "Runner") && !an.SameField(fld, f.joinField) {
+				if _, isChan := fld.Type().Underlying().(*types.Chan); isChan {
+					restart = fld
+				}
+			}
+		}
+	}
+	if restart == nil {
+		r.Undecided("restart-channel", "-", "no select arm of the runner receives from a channel field of Runner other than the join channel")
+		return
+	}
+	n := 0
+	for _, fn := range c.AllFuncs {
+		if core.RelPkg(fn) != "internal/raterun" {
+			continue
+		}
+		an.Instrs(fn, func(in ssa.Instruction) {
+			switch x := in.(type) {
+			case *ssa.Send:
+				if fld, _ := an.TerminalField(x.Chan); an.SameField(fld, restart) {
+					n++
+					r.OK(core.FuncName(fn)+"#restart-send", an.Pos(c, in), "blocking send on the restart channel")
+				}
+			case *ssa.Select:
+				for _, st := range x.States {
+					if st.Dir != types.SendOnly {
+						continue
+					}
+					if fld, _ := an.TerminalField(st.Chan); an.SameField(fld, restart) {
+						n++
+						r.Check(x.Blocking, core.FuncName(fn)+"#restart-send", an.Pos(c, in), "the send waits for the runner", "Restart gives up when the runner is not waiting in its select at that moment (select with default): a Restart arriving while the function executes is silently dropped and the runner never returns to the first schedule")
+					}
+				}
+			}
+		})
+	}
+	r.Floor("sends on the restart channel", n, 1)
+	// the way from the restart arm to the selector
+	for _, sel := range an.Selects(f.body) {
+		arms := an.SelectArms(sel)
+		for idx, st := range sel.States {
+			fld, _ := an.TerminalField(st.Chan)
+			if !an.SameField(fld, restart) || arms[idx] == nil {
+				continue
+			}
+			for _, in := range arms[idx].Instrs {
+				ci, ok := in.(*ssa.Call)
+				if !ok {
+					continue
+				}
+				t := an.Callee(ci)
+				if t == nil || core.RelPkg(t) != "internal/raterun" {
+					continue
+				}
+				// calls inside the helper must be unconditional
+				okPath := true
+				for _, inner := range an.AllCalls(t) {
+					if it := an.Callee(inner); it != nil && core.RelPkg(it) == "internal/raterun" && len(an.GuardsOf(inner.Block())) > 0 {
+						okPath = false
+					}
+				}
+				r.Check(okPath, core.FuncName(t)+"#restart-unconditional", an.Pos(c, ci), "the restart arm selects the first schedule unconditionally", "on Restart the first schedule is selected only under a condition: a Restart while the first schedule is active (or before it started) is ignored, so the runner leaves the first schedule at the original time")
+			}
+		}
+	}
+}
+
 // limitPlumbing: the plain uint64 field of PoolManager (the limit the refusal predicate of C03.R2 compares with) is
 // only ever set from a constructor parameter, and every constructor call passes a RunOptions.MaxIterations.
 func limitPlumbing(c *core.Ctx, r *core.Report) {
@@ -663,6 +744,21 @@ func keyContains(subs ...string) func(o core.Obligation) bool {
 }
 
 func init() {
+	extra["C10"] = append(extra["C10"], func(c *core.Ctx, r *core.Report) {
+		rule(r, "C10.R7", "the profile configured on the command line is the one computed: every option a trigger builder registers is read by it, every option is read before the rates are computed, and no argument of the computation is assigned again afterwards (a fallback or derived value applied too late)", func() {
+			builderWiring(c, r, []string{"staged", "ramp"}, 8, 2)
+		})
+	})
+	extra["C11"] = append(extra["C11"], func(c *core.Ctx, r *core.Report) {
+		rule(r, "C11.R8", "the gaussian profile configured on the command line is the one computed: every option the builder registers is read by it, every option is read before the rates are computed, and no argument of the computation (the volume derived from --peak-rate, for one) is assigned again afterwards", func() {
+			builderWiring(c, r, []string{"gaussian"}, 8, 1)
+		})
+	})
+	extra["C15"] = append(extra["C15"], func(c *core.Ctx, r *core.Report) {
+		rule(r, "C15.R6", "the time against which stages are judged past or future is taken when the config file is parsed (time.Now() at the ParseConfigFile call), not captured earlier", func() {
+			parseReferenceTime(c, r)
+		})
+	})
 	extra["C03"] = append(extra["C03"], func(c *core.Ctx, r *core.Report) {
 		rule(r, "C03.R7", "the limit the allocator enforces is the configured one: RunOptions.MaxIterations comes from the --max-iterations flag / the config file's max-iterations, and every PoolManager is constructed with RunOptions.MaxIterations as its limit", func() {
 			runOptionSources(c, r, []string{"MaxIterations"})
@@ -744,6 +840,70 @@ func init() {
 	extra["C14"] = append(extra["C14"], func(c *core.Ctx, r *core.Report) {
 		rule(r, "C14.R12", "in input-facing code a pointer, slice, map or interface returned together with an error is used (dereferenced, indexed, called on) only after that error was tested nil: a rejected input must come back as the error, not as a nil dereference", func() {
 			errBeforeUse(c, r)
+		})
+	})
+	extra["C18"] = append(extra["C18"], func(c *core.Ctx, r *core.Report) {
+		rule(r, "C18.R6", "a Restart is never lost or skipped: it is delivered with a plain blocking send on the restart channel, and the restart arm reaches the schedule selector with 0 unconditionally (no test of the current index on the way)", func() {
+			restartDelivery(c, r)
+		})
+	})
+	extra["C05"] = append(extra["C05"], func(c *core.Ctx, r *core.Report) {
+		rule(r, "C05.R12", "the completion timeout the command hands to the run is the package's fixed timeout, not one of the run's own options; and every worker signs off from the running-workers WaitGroup with a deferred Done (so that an iteration ending its goroutine by Goexit or a panic still lets the run complete)", func() {
+			n := 0
+			for _, fn := range c.AllFuncs {
+				if core.RelPkg(fn) != "internal/run" {
+					continue
+				}
+				for _, call := range an.AllCalls(fn) {
+					t := an.Callee(call)
+					if t == nil || t.Name() != "NewRun" || core.RelPkg(t) != "internal/run" {
+						continue
+					}
+					for i, a := range call.Common().Args {
+						if i >= t.Signature.Params().Len() || !isDuration(t.Signature.Params().At(i).Type()) {
+							continue
+						}
+						n++
+						// the run's own options: every value stored into a struct literal passed to the same call
+						isOption := ""
+						for _, o := range call.Common().Args {
+							lit := an.StructLiteralOf(o)
+							if lit == nil {
+								continue
+							}
+							for name, vals := range an.LiteralFieldStores(lit) {
+								for _, v := range vals {
+									if _, k := an.Strip(v).(*ssa.Const); !k && an.Strip(v) == an.Strip(a) {
+										isOption = name
+									}
+								}
+							}
+						}
+						r.Check(isOption == "", core.FuncName(fn)+"#completion-timeout", an.Pos(c, call), "the completion timeout is not one of the run's options", "the completion timeout handed to NewRun is the value of the run option "+isOption+", not the command's own timeout: with a short "+isOption+" iterations still running are abandoned early, with a long one a blocked iteration holds the run for that long")
+					}
+				}
+			}
+			r.Floor("NewRun calls with a timeout", n, 1)
+			m := 0
+			for _, fn := range c.AllFuncs {
+				if core.RelPkg(fn) != "internal/workers" {
+					continue
+				}
+				for _, call := range an.AllCalls(fn) {
+					t := an.Callee(call)
+					if t == nil || t.Name() != "Done" || t.Signature.Recv() == nil || !an.IsNamed(t.Signature.Recv().Type(), "sync", "WaitGroup") {
+						continue
+					}
+					fld, owner := an.TerminalField(call.Common().Args[0])
+					if fld == nil || !an.IsNamed(owner, workersPkg, "PoolManager") {
+						continue
+					}
+					m++
+					_, isDefer := call.(*ssa.Defer)
+					r.Check(isDefer && dominatesAllReturns(call, fn), core.FuncName(fn)+"#worker-signs-off", an.Pos(c, call), "deferred before the worker loop", "the worker's Done on the running-workers WaitGroup is not deferred (or not registered on every path): an iteration that ends its goroutine with runtime.Goexit or an uncontained panic never signs off, and the run waits out the whole completion timeout")
+				}
+			}
+			r.Floor("worker sign-offs", m, 2)
 		})
 	})
 	extra["C05"] = append(extra["C05"], func(c *core.Ctx, r *core.Report) {
